@@ -1,13 +1,13 @@
 """C11 — Released resources return exactly what was reserved."""
 from harness.props.c14 import totals
-from harness.props.sched_common import Ledger, SchedProp, loc_class
+from harness.props.sched_common import Ledger, SchedProp, input_class, loc_class
 
 
 class C11(SchedProp):
     ID = "C11"
     PROPS_FILE = "Props/C11.v"
-    LEVEL_TEXT = ("History level (C11_release, C11_release_loc): after EVERY conformant history (flat locations, one location per allocation; any order of notifications, any repetitions of a status incl. RUNNING/FIREABLE), in any state with no fireable/running job (resp. none on a given location) every ledger has cores = memory = 0 and per mount point exactly the sum of the du results of the released reservations. C11_release_stacked: the same for chains of stacked levels (every level, outer and inner), under coherent releases. Event level: Theorems (Coq, closed): notify_status releases exactly when the job leaves Running, or leaves Fireable for a status other than Running; hence never on a repeated notification of the same status, only for fireable/running jobs, and on every exit from {Fireable, Running}; the arithmetic of one reservation followed by its release on one location, (base + rq) - job_hardware + usage, never raises and restores base's cores and memory and base + measured usage per mount point for all base ledgers, requirements (any keys, aliasing) and usages; the model's reserve/free perform exactly that arithmetic. Refuted in the model: a non-conformant second RUNNING/COMPLETED releases twice (negative cores); with two outer locations stacked on one inner location the doubled inner requirement is reserved and the single one released (known finding). Real runs are replayed on the model and judged whenever no job is fireable/running: cores = memory = 0 and storage = sum of du results on every location.")
-    LEVEL_NOTE = ("Partial. The model takes as inputs (observed from the real run, not modelled) the resolved requirement map, the policy's choice, du results and re-bound hardware; asyncio (Condition, task order) is exercised under a seeded permuting loop, not modelled. No induction over whole histories is proved: the history-level statement is judged on every real run by an oracle written from the property text (ledger rebuilt from observations) and by replaying the run's event trace on the model. Trusted: Coq kernel + vm_compute, Sched/Model.v, Hardware/Model.v, the harness fakes. No axioms. The history theorems do not cover several locations per target nor incoherent releases (C11_shared_inner_leak_refuted and the multi-location known findings are such histories).")
+    LEVEL_TEXT = ("History level (C11_release, C11_release_loc): after EVERY conformant history (flat locations, one location per allocation; any order of notifications, any repetitions of a status incl. RUNNING/FIREABLE), in any state with no fireable/running job (resp. none on a given location) every ledger has cores = memory = 0 and per mount point exactly the sum of the du results of the released reservations. C11_release_stacked: the same for chains of stacked levels (every level, outer and inner), under coherent releases. Event level: Theorems (Coq, closed): notify_status releases exactly when the job leaves Running, or leaves Fireable for a status other than Running; hence never on a repeated notification of the same status, only for fireable/running jobs, and on every exit from {Fireable, Running}; the arithmetic of one reservation followed by its release on one location, (base + rq) - job_hardware + usage, never raises and restores base's cores and memory and base + measured usage per mount point for all base ledgers, requirements (any keys, aliasing) and usages; the model's reserve/free perform exactly that arithmetic. Refuted in the model AND a known finding of the code (C11_out_of_order_running_refuted): the text's 'regardless of the order' is false for a RUNNING notified after a terminal status - the next terminal notification releases twice (negative cores, or notify_status raises when storage was reserved); the history theorems therefore require RUNNING to go to fireable/running jobs only; with two outer locations stacked on one inner location the doubled inner requirement is reserved and the single one released (known finding). Real runs are replayed on the model and judged whenever no job is fireable/running: cores = memory = 0 and storage = sum of du results on every location.")
+    LEVEL_NOTE = ("Partial. The model takes as inputs (observed from the real run, not modelled) the resolved requirement map, the policy's choice, du results and re-bound hardware; asyncio (Condition, task order) is exercised under a seeded permuting loop, not modelled. The history-level theorems hold on stated domains only (flat or stacked chains, one location per allocation, coherent releases, conformant lifecycle); outside them, and for the link between model and code, the statement is judged on every real run by an oracle written from the property text (ledger rebuilt from observations) and by replaying the run's event trace on the model. The model's history ends when an operation raises (run = Err), whereas the real scheduler goes on half-updated (e.g. notify_status raising out of _free_resources: status changed, nothing released, no notify_all): such runs are judged by the oracle only. Trusted: Coq kernel + vm_compute, Sched/Model.v, Hardware/Model.v, the harness fakes. No axioms. The history theorems do not cover several locations per target nor incoherent releases (C11_shared_inner_leak_refuted and the multi-location known findings are such histories).")
 
     def oracle(self, case, obs):
         if "crash" in obs or "hang" in obs:
@@ -36,7 +36,8 @@ class C11(SchedProp):
     def signature(self, case, obs, clause):
         # releasing a multi-location allocation is known to be wrong whatever the location: one signature per clause
         multi = any(t["n"] > 1 for j in case["jobs"].values() for t in j["targets"])
-        return f"{clause.split('@')[0]}/multi" if multi else f"{clause}/single"
+        ic = input_class(obs)
+        return f"{clause.split('@')[0]}{ic}/multi" if multi else f"{clause}{ic}/single"
 
 
 PROP = C11()
